@@ -129,6 +129,7 @@ func runC09(p *eng.Prog, r *eng.Report, tier string) {
 	r.Note("bare assertions in scope: %d, explicit panics in scope: %d", nAssert, nPanic)
 	chanRules(c, "C09.4", fns, why)
 	goroutineEndsItsTracking(c, "C09.24")
+	resultUsedBeforeErrorTest(c, "C09.25", fns)
 	// C09.18 (= C06.6) every response is released exactly once: an unreleased
 	// response wedges the serve loop, a second release panics
 	respRelease(c, "C09.18", 8)
